@@ -20,31 +20,31 @@ CHECKS = {
          'TLA+ model + TLC; trace validation; spec-derived merge/split scenes'),
  'C07': (MC, 'MC_Pair.tla: cropping invariant under every substitution above the limit on all frames of the instance; pairs of real executions (new heights above the limit / blanked) replayed in lock-step by TLC (TracePair), premise re-checked by TLC; single runs judged for flag / kept / no-MSA', '7',
          'relational TLA+ spec + TLC; paired trace validation'),
- 'C08': ('exploration', 'degenerate and boundary scene kinds (several derived from the model: one-hit bundle, empty cropped chunk) x parameter sets keeping their documented meaning through run() + metar_msg(); TLC judges C08_Total / OnlyAmpycloudError / ReturnsString on every step; third-party numerics are exercised, not modelled', '7',
+ 'C08': ('exploration', 'every sequence of stage calls up to a bound on hand-driven chunks (refusals must be AmpycloudError, judged against the call-order machine of StageOps); degenerate and boundary scene kinds (several derived from the model: one-hit bundle, empty cropped chunk) x parameter sets keeping their documented meaning through run() + metar_msg(); TLC judges C08_Total / OnlyAmpycloudError / ReturnsString on every step; third-party numerics are exercised, not modelled', '7',
          'spec-guided exploration judged by TLC'),
  'C09': (MC, 'Session.tla complete; sessions in fresh processes with PYTHONHASHSEED 0/1/random/12345, each with its own history of runs, seeds, uniform and normal draws, demo data, raising tmp_seed bodies, direct mixture calls with explicit seeds; TLC replays: random-state digest unchanged by ampycloud actions, results equal to earlier ones and to the reference process', '7',
          'TLA+ session model + TLC; trace validation across processes'),
  'C10': (MC, 'MC_Pair.tla: positional vs label-based selection (label-based variant violates with repeated labels); pairs (index relabellings incl. repeated labels, column permutations, extra columns, dtype variants) replayed by TLC: same tables (bit digests), ids, message', '7',
          'relational TLA+ spec + TLC; paired trace validation'),
- 'C11': (MC, 'Params.tla (values and list-object identities) explored to a depth bound; walks over the full action alphabet (TLC -simulate behaviours of Params.tla, all ordered pairs of a reduced alphabet, random walks) on the real module; TLC judges construct-keeps / global-edit-no-effect / snapshot-edit-no-leak / private / no-dict-shared / frame-untouched on observed states and compares with the spec step', '7',
+ 'C11': (MC, 'Params.tla (values and list-object identities) explored to a depth bound; walks over the full action alphabet (TLC -simulate behaviours of Params.tla, all ordered pairs of a reduced alphabet, random walks) on the real module; TLC judges construct-keeps / global-edit-no-effect / snapshot-edit-no-leak / private / no-dict-shared / frame-untouched on observed states and compares with the spec step; pipeline pairs (TracePair kind c11): a scene with the global dictionary left alone vs edited after the construction and before every later call', '7',
          'TLA+ heap-identity model + TLC; trace validation of parameter-store walks'),
  'C12': (MC, 'Params.tla: overlay semantics, equivalence of the three routes, overrides win, reset; walks (TLC -simulate behaviours, pairs, random) incl. YAML through set_prms (empty files, null values) and reset_prms; decision tables of the parameter-file entry points (PrmFiles.tla); pipeline-level pairs: per-call vs global vs YAML vs poisoned global give identical tables / ids / messages', '7',
          'TLA+ model + TLC; trace validation; route pairs'),
- 'C13': (MC, 'Interleave.tla emits every schedule: all 252 interleavings of 2x5 stages (and 3x4, sampled in quick) driven through real chunks with the global dictionary poisoned in between; real threads under a settrace token scheduler pre-empting at ampycloud source lines (chosen counts, or every line of named functions) on seed-sensitive data; TLC compares every chunk stage by stage with its isolated run', '7',
+ 'C13': (MC, 'Interleave.tla emits every schedule: all 252 interleavings of 2x5 stages (and 3x4, sampled in quick) driven through real chunks with the global dictionary poisoned in between; real threads under a settrace token scheduler pre-empting at ampycloud source lines (chosen counts, or every line of named functions) on seed-sensitive and parameter-sensitive data, and the same hits in every chunk; TLC compares every chunk stage by stage with its isolated run', '7',
          'TLA+ interleaving model + TLC; schedule replay; paired trace validation'),
- 'C14': (MC, 'Stage.tla complete for any call sequence; its dumped graph is walked (every edge, all sequences up to the bound, sampled long walks) on merging+splitting / two-deck / simple / all-NaN scenes; TLC replays against StageOps and the canonical run', '7',
+ 'C14': (MC, 'Stage.tla complete for any call sequence; its dumped graph is walked (every edge, all sequences up to the bound, sampled long walks) on merging+splitting / merge-only / two-deck / simple / MSA-buffer / all-NaN scenes; TLC replays against StageOps and the canonical run', '7',
          'TLA+ state machine + TLC graph dump; walk replay; trace validation'),
- 'C15': (MC, 'Screening.tla enumerates abstract frames (all multisets of rows up to the bound x dtype variants x extra columns x missing columns x non-frames); the real check_data_consistency is run on each and a CeiloChunk is constructed from each (without MSA and with an MSA below every height); TLC judges raised <=> Rejects(frame) for both, and the normalisation clauses; frames from mocker.mock_layers judged for well-formedness (implementation level)', '7',
+ 'C15': (MC, 'Screening.tla enumerates abstract frames (all multisets of rows up to the bound x dtype variants x extra columns x missing columns x non-frames); the real check_data_consistency is run on each and a CeiloChunk is constructed from each (without MSA and with an MSA below every height, and from the same frame derived by pandas operations from a previously checked frame or from chunk data); TLC judges raised <=> Rejects(frame) for both, and the normalisation clauses; frames from mocker.mock_layers judged for well-formedness (implementation level)', '7',
          'TLA+ case analysis + TLC; exhaustive spec-generated inputs'),
  'C16': (MC, 'MC_Pair.tla: tables invariant under every bijection of names for every slicing outcome; renamed twins (order-reversing, 9/10, blank-ish, long names; exclusion mapped) replayed by TLC: bit-identical tables, ids, message', '7',
          'relational TLA+ spec + TLC; paired trace validation'),
  'C17': (MC, 'ICAOAuto.tla: fold = declarative rule on the finite product automaton (any length); the real function tabulated over ALL okta sequences up to the bound, TLC checks completeness, the declarative rule, prefix independence, one flag per layer', '7',
          'TLA+ automaton + TLC; exhaustive function table'),
- 'C18': (MC, 'WMO.tla transcriptions checked on the whole finite domain; the real functions tabulated (all n/m up to the bound scalar+array, heights grid + float neighbours of every boundary, okta2code domain, refusals), tables judged by TLC', '7',
+ 'C18': (MC, 'WMO.tla transcriptions checked on the whole finite domain; the real functions tabulated (all n/m up to the bound scalar+array, heights grid + float neighbours of every boundary, okta2code domain, refusals incl. after equal-valued integers, repeated calls on the same array), tables judged by TLC', '7',
          'TLA+ transcription + TLC; exhaustive function tables'),
  'C19': (MC, 'Scaler.tla over exact rationals: every enumerated case checked on the transcription and through the real apply_scaling / convert_kwargs; TLC judges order, undo, [0,1], min_range, continuity, NaN blindness', '7',
          'TLA+ transcription over rationals + TLC; spec-generated cases'),
- 'C20': ('exploration', 'frame conditions of Plot(c, opts) in TracePlots.tla; sessions of diagnostic() calls over chunk classes x upto x options; TLC judges total / chunk, rcParams, global untouched / no figure left / exactly the requested files; matplotlib itself is exercised, not modelled', '7',
+ 'C20': ('exploration', 'frame conditions of Plot(c, opts) in TracePlots.tla; sessions of diagnostic() calls over chunk classes x upto x options x a global dictionary that differs between run() and the plot; TLC judges total / chunk, rcParams, global untouched / no figure left / exactly the requested files; matplotlib itself is exercised, not modelled', '7',
          'spec-guided exploration judged by TLC'),
 }
 NOTE = ('trusted base: TLC 1.8.0 and the CommunityModules; the tracer/projection code under /verif/harness (floats -> scaled integers, refusing values off the lattice); '
